@@ -124,6 +124,8 @@ SameMem(e) ==
   /\ e.pkt = mem[R_PKT]
   /\ (env.c.vm = "mbuff" => e.mbuf = mem[R_MBUF])
   /\ \A k \in 1..Len(e.allow) : e.allow[k] = mem[3 + k]
+  \* the interpreter's own stack, all 512 bytes (empty: no instruction ran)
+  /\ (Len(e.stack) > 0 => e.stack = mem[R_STACK])
 
 \* C03 / C04 (direction A): when the specification judges the run defined, a compiled engine that
 \* was run on the same program and input returned the same value and left the same bytes
